@@ -63,6 +63,7 @@ type c14Model struct {
 
 	anchors []string
 	wf      *c14WalkFacts
+	pdefers *c14Deferred
 }
 
 const c14RelID = core.ModulePath + ".RelationID"
